@@ -31,6 +31,9 @@ func termOf(fn *ssa.Function, v ssa.Value, depth int) string {
 	}
 	switch x := v.(type) {
 	case *ssa.Const:
+		if x.Value == nil {
+			return "const:nil"
+		}
 		return "const:" + x.Value.String()
 	case *ssa.Parameter:
 		return x.Name()
